@@ -1034,8 +1034,14 @@ func ExecOp(w *e.World, st *e.Step) (e.TxResult, bool) {
 			return e.TxResult{}, false
 		}
 		w.Stats.Op(st.Op, res.Code == 0)
-		if dbg := os.Getenv("HAQQSIM_OPLOG"); dbg != "" && dbg == st.Op {
+		if dbg := os.Getenv("HAQQSIM_OPLOG"); dbg != "" && (dbg == st.Op || dbg == "vesting") {
 			fmt.Fprintf(os.Stderr, "OPLOG %s code=%d %s\n", st.Op, res.Code, trunc(res.Log, 240))
+			if dbg == "vesting" {
+				for _, i := range vestingAccts(w) {
+					va := vestingAcct(w, i)
+					fmt.Fprintf(os.Stderr, "   acct %d now=%d start=%d end=%d orig=%s lock=%v vest=%v delFree=%s delVest=%s\n", i, w.Now.Unix(), va.StartTime.Unix(), va.EndTime, va.OriginalVesting, va.LockupPeriods, va.VestingPeriods, va.DelegatedFree, va.DelegatedVesting)
+				}
+			}
 		}
 		return res, true
 	}
